@@ -434,6 +434,11 @@ loop: // we need this label to continue the for loop from within the select belo
 
 // GenerateKeyPair generates a private/public keypair for an Issuer
 func GenerateKeyPair(param *SystemParameters, numAttributes int, counter uint, expiryDate time.Time) (*PrivateKey, *PublicKey, error) {
+	if param.Ln%2 != 0 {
+		// The product of two primes of Ln/2 bits never has an odd number Ln of bits: the search for
+		// a matching pair would not end.
+		return nil, nil, errors.New("modulus length must be even")
+	}
 	p, q, err := generateSafePrimePair(param)
 	if err != nil {
 		return nil, nil, err
